@@ -462,7 +462,7 @@ def local_defs(fn, program=None, extra_ok=(), allow_overwritten=False):
         if count.get(n, 0) != 1 or n in written or n in unsafe:
             continue
         ty = st.get("ty", "")
-        simple = ty.startswith("const ") or ty.endswith("*") or ty.endswith("* const") or ty in (
+        simple = ty.startswith("const ") or ty.endswith(" const") or ty.endswith(" const &") or ty.endswith("*") or ty.endswith("* const") or ty in (
             "bool", "int", "unsigned int", "int64_t", "uint64_t", "uint32_t", "int32_t", "size_t", "CAmount", "long", "unsigned long",
             "std::size_t", "uint8_t", "unsigned char", "NodeId", "auto") or ty.endswith("iterator") or n in extra_ok
         if simple:
